@@ -609,6 +609,28 @@ def run(ctx):
     ctx.analysed['file_read_sites'] = n_sites
     ctx.assume('os.path.realpath resolves every symbolic link and ".." component; no race with '
                'the file system between the check and open()')
+    # ---- R15f: realpath sees the name as it was requested
+    ctx.rule('R15f', 'os.path.realpath() is applied to the joined name itself: no lexical normalisation (normpath, '
+                     'abspath) runs first -- `link/..` must be resolved through the link, as the file system does', 1)
+    n_rp = 0
+    for c_ in [x for x in ast.walk(fn) if isinstance(x, ast.Call) and unparse(x.func) in ('os.path.realpath', 'realpath')]:
+        n_rp += 1
+        # follow one level of local definitions of the argument
+        exprs_ = list(c_.args)
+        for a_ in c_.args:
+            if isinstance(a_, ast.Name):
+                exprs_ += [st_.value for st_ in iter_own(fn) if isinstance(st_, ast.Assign) and any(
+                    isinstance(t_, ast.Name) and t_.id == a_.id for t_ in st_.targets) and st_.lineno < c_.lineno]
+        lexical = [x for e_ in exprs_ for x in ast.walk(e_) if isinstance(x, ast.Call) and
+                   unparse(x.func).rsplit('.', 1)[-1] in ('normpath', 'abspath', 'normcase')]
+        ctx.decide('R15f', not lexical, m, c_, 'realpath applied to ' + short(c_.args[0], 50) if c_.args else 'realpath()',
+                   'the name is normalised lexically (%s) before os.path.realpath(): `..` after a directory symlink is '
+                   'removed together with the link name instead of being resolved through the link, so the path that is '
+                   'checked and opened is not the file the requested name designates'
+                   % (short(lexical[0], 50) if lexical else ''), construct='realpath argument: ' + short(c_, 60))
+    if n_rp == 0:
+        ctx.unknown('R15f', m, fn, 'no realpath call found', construct='realpath argument')
+
     return 'other', (
         'Decides, on the source of read_latex_file / read_input_file, the necessary structural '
         'conditions of strict-input containment: component-aware test, canonical value checked, '
